@@ -56,6 +56,17 @@ def gen_profiles(r: common.Rng, bad: str | None):
         if bad == "empty-exec" and i == 0:
             p["exec"] = []
         ps.append(p)
+    # some profiles repeat the strategies of an earlier one (shared menus; in YAML they are written as aliases).
+    # The choice comes from a sub-stream keyed by the content, so the main stream is not shifted.
+    import copy as _copy
+    import json as _json
+
+    r2 = common.Rng(0, "c19-shared-strategies/" + _json.dumps(ps, sort_keys=True))
+    for i in range(1, len(ps)):
+        if ps[i]["exec"] and r2.random() < 0.35:
+            j = r2.randrange(i)
+            if ps[j]["exec"]:
+                ps[i]["exec"] = _copy.deepcopy(ps[j]["exec"])
     if bad == "profile-no-name":
         ps[r.randrange(len(ps))]["name"] = None
     return ps
